@@ -108,6 +108,17 @@ def obligations(tier):
     for d, k in combos:
         for first in range(0, 9):
             obs.append(_script_ob(d, k, first, names, T))
+    # Part B': positioned histories (the server has been rolled back to a savepoint, then to a later one)
+    for first in range(0, 9):
+        np_ = 2 if quick else names
+        obs.append(Ob(id=f'positioned.k2.first{first}', module=M, func='script_positioned',
+                      params='pn0: int, pc0: int, pn1: int, pc1: int, k: int, n0: int, f0: bool, o1: int, n1: int, f1: bool',
+                      pre=[f'0 <= pn0 < {np_} and 0 <= pn1 < {np_}', ('pc0 == 0 or pc0 == 3' if quick else '0 <= pc0 <= 3'),
+                           '1 <= pc1 <= 3', '1 <= k <= 2', f'0 <= n0 < {names} and 0 <= n1 < {names}', '0 <= o1 <= 8'],
+                      args=f'1000, pn0, pc0, pn1, pc1, k, {first}, n0, f0, o1, n1, f1', timeout=T,
+                      group='B.positioned',
+                      bound='START; [change]; SAVEPOINT a; ROLLBACK TO a; change; SAVEPOINT b; ROLLBACK TO b; 1-2 free '
+                            f'statements (first kind {first}) with backend-failure flags'))
     # known finding F11: un-narrowed instance restricted to witness histories
     # SAVEPOINT a; [change]; SAVEPOINT a; RELEASE a; ROLLBACK TO a; <any statement>
     obs.append(_script_ob(2, 3, 4, names, T, func='script_raw', oid='script.F11', finding='F11',
